@@ -16,11 +16,12 @@ CONSTANTS Registered,   \* entity types with a registered collection
 VARIABLES coll,         \* [Registered -> [key -> value]]   (partial functions)
           last,         \* LastOffset
           strict,       \* WithStrictSchema
-          resets, snaps \* callback counts
-svars == <<coll, last, strict, resets, snaps>>
+          resets, snaps, \* callback counts (WithOnReset, WithOnSnapshot)
+          errcb          \* calls of the WithOnError callback
+svars == <<coll, last, strict, resets, snaps, errcb>>
 
 Empty == [t \in Registered |-> <<>>]
-SInit(s) == coll = Empty /\ last = NoOffset /\ strict = s /\ resets = 0 /\ snaps = 0
+SInit(s) == coll = Empty /\ last = NoOffset /\ strict = s /\ resets = 0 /\ snaps = 0 /\ errcb = 0
 
 Drop(f, k) == [x \in DOMAIN f \ {k} |-> f[x]]
 IsChange(m) == m.kind \in {"insert", "update", "delete"}
@@ -39,6 +40,9 @@ Effect(c, m) ==
        ELSE [c EXCEPT ![m.type] = (m.key :> m.val) @@ @]
   ELSE c      \* snapshot markers, unregistered types in non-strict mode
 
+\* the error callback is called when a registered collection fails to apply a change (an ill-typed value)
+ErrCallback(m) == IF m.kind = "badvalue" /\ m.type \in Registered THEN 1 ELSE 0
+
 \* Materializer.Apply(event with offset off carrying m) returned err
 Apply(m, off, err) ==
   /\ err = Rejects(m)
@@ -47,7 +51,19 @@ Apply(m, off, err) ==
           /\ last' = off
           /\ resets' = resets + (IF m.kind = "reset" THEN 1 ELSE 0)
           /\ snaps' = snaps + (IF m.kind \in {"snapstart", "snapend"} THEN 1 ELSE 0)
+  /\ errcb' = errcb + ErrCallback(m)
   /\ UNCHANGED strict
+
+\* ApplyChangeMessage / ApplyControlMessage: the same effect on the collections, LastOffset is not touched
+ApplyDirect(m, err) ==
+  /\ m.kind # "garbage"
+  /\ err = Rejects(m)
+  /\ IF err THEN UNCHANGED <<coll, resets, snaps>>
+     ELSE /\ coll' = Effect(coll, m)
+          /\ resets' = resets + (IF m.kind = "reset" THEN 1 ELSE 0)
+          /\ snaps' = snaps + (IF m.kind \in {"snapstart", "snapend"} THEN 1 ELSE 0)
+  /\ errcb' = errcb + ErrCallback(m)
+  /\ UNCHANGED <<last, strict>>
 
 \* ---- the fold of a message log (reference definition)
 RECURSIVE Fold(_, _)
